@@ -407,6 +407,12 @@ static void PlaceValue(Word Value, Boolean IsByte) {
         }
     } else {
         if (CodeSegSize) {
+            /* a word after an odd number of string characters: the pending
+               character fills a word of its own instead of getting lost */
+            if (WordAccFull) {
+                WrError(ErrNum_PaddingAdded);
+                AppendCode(WordAcc);
+            }
             AppendCode(Value);
         } else {
             BAsmCode[CodeLen++] = Lo(Value);
